@@ -155,13 +155,19 @@ def build(prof):
                              "estim": NonnegMean.shrink_trunc, "bet": None, "use_style": prof["use_style"]})
     cvrs = [CVR(id=f"c{i}", votes=({} if b is None else {"con": dict(b)})) for i, b in enumerate(prof["ballots"])]
     losers = [c for c in prof["cands"] if c not in prof["winners"]]
-    if kind == "supermajority":
-        asns = Assertion.make_supermajority_assertion(contest=con, winner=prof["winners"][0], loser=losers,
-                                                      share_to_win=prof["share"], test=NonnegMean.alpha_mart,
-                                                      estim=NonnegMean.shrink_trunc)
-    else:
-        asns = Assertion.make_plurality_assertions(contest=con, winner=list(prof["winners"]), loser=losers,
-                                                   test=NonnegMean.alpha_mart, estim=NonnegMean.shrink_trunc)
+    # the constructors are called twice with the SAME argument objects (a notebook cell re-run, or one race audited
+    # twice): the assertions used are those of the second call, and the caller's lists must come back unchanged
+    winners_arg = list(prof["winners"])
+    before = (list(winners_arg), list(losers))
+    for _ in range(2):
+        if kind == "supermajority":
+            asns = Assertion.make_supermajority_assertion(contest=con, winner=prof["winners"][0], loser=losers,
+                                                          share_to_win=prof["share"], test=NonnegMean.alpha_mart,
+                                                          estim=NonnegMean.shrink_trunc)
+        else:
+            asns = Assertion.make_plurality_assertions(contest=con, winner=winners_arg, loser=losers,
+                                                       test=NonnegMean.alpha_mart, estim=NonnegMean.shrink_trunc)
+    con._args_mutated = (before != (winners_arg, losers))
     return con, cvrs, asns, Contest
 
 
@@ -181,6 +187,9 @@ def run_case(prof, rec):
     if not ok:
         return
     con, cvrs, asns, Contest = built
+    rec.count("constructor_called_twice_with_same_arguments")
+    if con._args_mutated:
+        rec.count("observed:constructor_mutated_its_arguments")  # an observation, not a violation: the property is about the values
     with np.errstate(all="ignore"):
         means = {}
         for name, a in asns.items():
